@@ -202,6 +202,41 @@ def atomic(ctx) -> None:
     ctx.check(not outside, 'R-OWNER', f'{POSIX}:Registry', f'marker paths are derived only inside posix.Registry (other sites: {outside})', key='marker-owner', loc=POSIX)
 
 
+def path_injective(ctx) -> None:
+    """Distinct keys live in distinct directories: each posix ``Path`` builder names its component after the *whole* key it is
+    given (``str(key)``, the key itself, or an f-string of it) under the directory of the level above - never after a
+    projection of the key (``release.public`` drops the local version label: 1.0 and 1.0+hotfix would share one directory,
+    the later package overwriting the earlier one and both sharing one generation sequence)."""
+    prog = ctx.prog
+    builders = {'project': ['project'], 'release': ['project', 'release'], 'generation': ['project', 'release', 'generation'], 'state': ['project', 'release', 'generation', 'sid'], 'tag': ['project', 'release', 'generation'], 'package': ['project', 'release']}
+    n = 0
+    for name, keys in builders.items():
+        fn = prog.func(f'{POSIX}:Path.{name}')
+        rets = [r for r in core.walk_local(fn.inlined().node) if isinstance(r, ast.Return)]
+        if len(rets) != 1 or not isinstance(rets[0].value, ast.BinOp) or not isinstance(rets[0].value.op, ast.Div):
+            ctx.fail('C05.path-injective', fn, f'Path.{name} is not of the shape <parent directory> / <component>', fn.node, key=f'{name}:shape')
+            continue
+        n += 1
+        left, comp = rets[0].value.left, rets[0].value.right
+        own = keys[-1]
+        params = set(fn.param_names) - {'self'}
+        # the component: the own key as a whole (for package/tag: a class constant - their key is the directory above)
+        if name in ('package', 'tag'):
+            okc = core.src(comp).startswith('self.') and not (core.names_in(comp) & params)
+        else:
+            whole = {own, f'str({own})'}
+            okc = core.src(comp) in whole or (isinstance(comp, ast.JoinedStr) and any(isinstance(v, ast.FormattedValue) and core.src(v.value) == own for v in comp.values) and not any(isinstance(v, ast.FormattedValue) and core.src(v.value) != own and (core.names_in(v.value) & params) for v in comp.values))
+        ctx.check(okc, 'C05.path-injective', fn, f'Path.{name}: the component `{core.src(comp)}` is the whole `{own}` key (str/f-string of it), not a projection of it', comp, key=f'{name}:component')
+        # the parent: the builder of the level above with the leading keys in order (or the root itself for a project)
+        above = keys[:-1] if name not in ('package', 'tag') else keys
+        if not above:
+            okp = core.src(left) == 'self'
+        else:
+            okp = isinstance(left, ast.Call) and isinstance(left.func, ast.Attribute) and core.src(left.func.value) == 'self' and [core.src(a) for a in left.args] == above and left.func.attr == {1: 'project', 2: 'release', 3: 'generation'}[len(above)]
+        ctx.check(okp, 'C05.path-injective', fn, f'Path.{name}: lives under `{core.src(left)}` - the directory of the level above addressed by {above}', left, key=f'{name}:parent')
+    ctx.floor('C05.path-injective', n, 6)
+
+
 def staged_guard(ctx) -> None:
     """A generation is committed only from states staged under that very release: inside the loop over the tag's state ids a
     missing staged file refuses the commit - unconditionally (no resume/skip path) - before anything of this state is moved."""
@@ -421,6 +456,14 @@ def r_cache(ctx) -> None:
         if any(d.split('.')[-1] in ('lru_cache', 'cache', 'cached_property') for d in decos):
             n += 1
             ctx.check(fn.name not in LISTING_NAMES, 'R-CACHE', fn, f'memoised function `{fn.name}` is not a listing (a cached listing never shows new releases/generations)', fn.node, key=f'cache:{fn.name}')
+    # ... nor by hand: a listing function keeps nothing on its object (``if not self._x: self._x = <listing>; return self._x``
+    # is the same stale listing - a generation committed meanwhile is never seen, the next one re-uses its number)
+    for fn in prog.functions([m for m in mods if m.startswith(('forml.io.asset', 'forml.provider.registry'))]):
+        if fn.name not in LISTING_NAMES - {'key'} or fn.cls is None:
+            continue
+        n += 1
+        stores = [x for x in core.walk_local(fn.node) if isinstance(x, ast.Attribute) and isinstance(x.ctx, ast.Store) and core.src(x.value) == 'self']
+        ctx.check(not stores, 'R-CACHE', fn, f'listing `{fn.qual}` keeps nothing on the instance (writes {[core.src(x) for x in stores]}): every call reads the registry', stores[0] if stores else fn.node, key=f'listing-memo:{fn.qual}')
     for modname in mods:
         mod = prog.modules[modname]
         for name, val in mod.assigns.items():
@@ -519,6 +562,7 @@ def key_paths(ctx) -> None:
 
 
 def run(ctx) -> None:
+    path_injective(ctx)
     # nothing is computed from a loop variable after its loop ran to completion (it would be the last element's value)
     shared.r_staleloop(ctx, ctx.prog.functions([m for m in ctx.prog.modules if m.startswith(('forml.io.asset', 'forml.provider.registry'))]))
     key_paths(ctx)
